@@ -36,6 +36,8 @@ def run(ck):
     ck.rule("C14.R9", "numbers the JSON visitors do not handle themselves (128-bit) reach record_debug with every digit: Visit's provided methods pass the value on unchanged (as C10.R4)", floor=8)
     ck.rule("C14.R10", "a value is rendered the same way whether it is an event field or a span field: the event-side visitors (tracing-serde) override no record_* method that the span-side JsonVisitor leaves to Visit's provided default", floor=2)
     ck.rule("C14.R11", "a span's stored JSON fields are its own: a recycled registry slot never carries the previous span's extensions over (Clear empties them on every path, as C05.R1)", floor=1)
+    ck.rule("C14.R12", "what a layer stored for a span is what it reads back: the per-span type map files, finds and removes a value under the "
+            "TypeId of that value's own type, through every wrapper", floor=9)
     ck.rule("C14.R8", "every span field the JSON visitor is handed is stored (as C13.R10)", floor=4)
     ck.rule("C14.R7", "the JSON span list is the event's own scope, root to leaf (as C13.R7)", floor=5)
     ck.rule("C14.R3", "span list is root to leaf", floor=1)
@@ -56,6 +58,71 @@ def run(ck):
     r10_siblings(ck, F)
     from rules import C05 as _C05
     _C05.clear_resets_slot(ck, F, "C14.R11")
+    extensions_typemap(ck, F, "C14.R12")
+
+
+def extensions_typemap(ck, F, rid):
+    """Extensions is a map TypeId -> Box<dyn Any>. The formatted / JSON fields of a span live there between on_new_span,
+    on_record and the event that prints them; they are found again only if insert, get, get_mut and remove all key on
+    TypeId::of::<T>() for the *same* T as the value stored / asked for, and the public wrappers pass that T through."""
+    X = "tracing_subscriber::registry::extensions::"
+    INNER = {"insert": "insert", "get": "get", "get_mut": "get_mut", "remove": "remove"}
+    for m, mapop in INNER.items():
+        b = F.body(X + "ExtensionsInner::" + m)
+        if not ck.anchor(rid, "ExtensionsInner::" + m, b):
+            continue
+        key = "ExtensionsInner::%s keys the map on TypeId::of::<T>() of its own T" % m
+        problems = []
+        tp = b.raw.get("tparams") or []
+        ops = [(bb, t) for bb, t in b.calls() if "HashMap" in str(t["callee"].get("path")) and t["callee"].get("method") in ("insert", "get", "get_mut", "remove", "entry", "remove_entry", "get_key_value")]
+        if len(tp) != 1:
+            problems.append("type parameters %s" % tp)
+        elif len(ops) != 1 or ops[0][1]["callee"].get("method") != mapop:
+            problems.append("map operations %s (expected one %s)" % ([t["callee"].get("method") for _, t in ops], mapop))
+        else:
+            bb, t = ops[0]
+            ko = b.origin(t["argv"][1])
+            if not (ko[0] == "call" and ko[2]["callee"].get("path") == "core::any::TypeId::of" and ko[2]["callee"].get("targs") == tp):
+                problems.append("the key is %s, not TypeId::of::<%s>()" % (ko[2]["callee"].get("full") if ko[0] == "call" else ko[0], tp[0]))
+            if m == "insert":
+                vo = b.origin(t["argv"][2])
+                if not (vo[0] == "call" and "Box" in str(vo[2]["callee"].get("path")) and vo[2]["callee"].get("method") == "new" and b.origin(vo[2]["argv"][0]) == ("arg", 2, [])):
+                    problems.append("the stored value is not Box::new(val)")
+            # the answer is that map operation's result, downcast -- not dropped
+            ro = [p.ret for p in __import__("rulekit.sym", fromlist=["PathEval"]).PathEval(b).run() if p.end == "return"]
+            from rulekit.sym import show
+            if not ro or not all(mapop + "(" in show(r) for r in ro):
+                problems.append("returns %s" % [show(r)[:60] for r in ro])
+        if problems:
+            ck.bad(rid, key, where(b.raw["sp"]), "; ".join(problems) + ": a value filed under one type's id is not found under its own", fn=b.path)
+        else:
+            ck.ok(rid, key, fn=b.path)
+    WRAP = {"ExtensionsMut::<'a>::replace": "insert", "ExtensionsMut::<'a>::get_mut": "get_mut", "ExtensionsMut::<'a>::remove": "remove", "Extensions::<'a>::get": "get"}
+    for w, inner in WRAP.items():
+        b = F.body(X + w)
+        if not ck.anchor(rid, w, b):
+            continue
+        key = "%s is ExtensionsInner::%s::<T> on the guarded map" % (w.replace("::<'a>", ""), inner)
+        tp = b.raw.get("tparams") or []
+        calls = [t for bb, t in b.calls() if str(t["callee"].get("path", "")).startswith(X + "ExtensionsInner::")]
+        from rulekit.sym import PathEval, show
+        rets = [show(p.ret) for p in PathEval(b).run() if p.end == "return"]
+        ok = len(calls) == 1 and calls[0]["callee"]["path"] == X + "ExtensionsInner::" + inner and calls[0]["callee"].get("targs") == tp and \
+            rets and all(r.startswith(inner + "(") for r in rets)
+        if ok and inner == "insert":
+            ok = b.origin(calls[0]["argv"][1]) == ("arg", 2, [])
+        if ok:
+            ck.ok(rid, key, fn=b.path)
+        else:
+            ck.bad(rid, key, where(b.raw["sp"]), "calls %s with %s, returns %s" % ([c["callee"].get("path", "").rsplit("::", 1)[-1] for c in calls], [c["callee"].get("targs") for c in calls], rets), fn=b.path)
+    b = F.body(X + "ExtensionsMut::<'a>::insert")
+    if ck.anchor(rid, "ExtensionsMut::insert", b):
+        calls = [t for bb, t in b.calls() if t["callee"].get("path") == X + "ExtensionsMut::<'a>::replace"]
+        key = "ExtensionsMut::insert stores through replace::<T>(val)"
+        if len(calls) == 1 and calls[0]["callee"].get("targs") == (b.raw.get("tparams") or []) and b.origin(calls[0]["argv"][1]) == ("arg", 2, []):
+            ck.ok(rid, key, fn=b.path)
+        else:
+            ck.bad(rid, key, where(b.raw["sp"]), "replace calls: %d" % len(calls), fn=b.path)
 
 
 def r1(ck, F):
